@@ -35,6 +35,7 @@ def run(ctx):
     ctx.do(rule_truncate)
     ctx.do(rule_utc)
     ctx.do(rule_no_relabel)
+    ctx.do(rule_one_writer_one_reader)
     ctx.do(rule_truncated_in_utc)
     ctx.do(rule_value_object)
     ctx.do(rule_api_domain)
@@ -387,6 +388,33 @@ def rule_truncated_in_utc(ctx, rule_id="C15.utc"):
                   found="definitions reaching the cut: %s" % bad)
     if n < 2:
         raise AnalysisError("fewer than 2 truncation sites in parse_into_datetime (%d): anchors lost" % n)
+
+
+def rule_one_writer_one_reader(ctx, rule_id="C15.api-domain"):
+    """Timestamp TEXT is produced in one place (stix2.utils.format_datetime) and read in one place (parse_into_datetime): the
+    conversion to UTC, the four-digit year, the precision rules live there.  A second formatter (strftime / isoformat / a
+    hand-made '%Y-...' template elsewhere) skips them: wall-clock time of another zone written with 'Z', years below 1000
+    unpadded.  Who-may-call rule over the whole package."""
+    run = ctx.run
+    prog = ctx.prog
+    owners = {"strftime": U + "::format_datetime", "isoformat": None, "strptime": U + "::parse_into_datetime",
+              "fromisoformat": None}
+    n = 0
+    for fi in sorted(prog.functions.values(), key=lambda f: f.id):
+        if fi.module.relpath.startswith("stix2/test"):
+            continue
+        for x in body_walk(fi.node):
+            if isinstance(x, ast.Call) and isinstance(x.func, ast.Attribute) and x.func.attr in owners:
+                n += 1
+                own = owners[x.func.attr]
+                run.check(fi.id == own, rule_id, key(fi.module.relpath, fi.qualname, "timestamp-text-by-the-one-%s:%s" % (
+                    "writer" if x.func.attr in ("strftime", "isoformat") else "reader", x.func.attr)),
+                    "timestamp text is %s outside %s: the UTC conversion, the padded year and the precision rules of the one %s "
+                    "are bypassed" % (("produced", "format_datetime", "writer") if x.func.attr in ("strftime", "isoformat")
+                                      else ("read", "parse_into_datetime", "reader")), file=fi.module.relpath, line=x.lineno,
+                    function=fi.qualname, expected="stix2.utils.format_datetime(...) / parse_into_datetime(...)", found=short(x, 80))
+    if n < 2:
+        raise AnalysisError("strftime / strptime call sites not found (%d): anchors lost" % n)
 
 
 def rule_no_relabel(ctx, rule_id="C15.utc"):
